@@ -1,7 +1,12 @@
 (* Extraction entry point for C07 (packet decoders) *)
-From NDN Require Import Base.Prelude Base.Sexp Model.TlvVar Model.Name Model.Tlv Model.Packet Spec.StrictTlv Spec.SignedPortion Extract.TlvSexp.
+From NDN Require Import Base.Prelude Base.Sexp Model.TlvVar Model.Name Model.Tlv Model.Packet Model.PacketPtrs Spec.StrictTlv Spec.SignedPortion Extract.TlvSexp.
+From NDN Require Generated.Schemas.
 From Coq Require Extraction ExtrOcamlBasic.
 Local Open Scope N_scope.
+
+Definition s_ptrs (p : ptrs) : sexp :=
+  SList [s_list SBytes (p_sig_covered p); s_opt SBytes (p_sig_value p);
+         s_list SBytes (p_dig_covered p); s_opt SBytes (p_dig_value p)].
 
 Definition run (req : sexp) : sexp :=
   match req with
@@ -24,6 +29,10 @@ Definition run (req : sexp) : sexp :=
   | SList [SNum 31; SBytes v] => s_opt SBytes (signed_portion_interest v)
   | SList [SNum 32; SBytes v] => s_opt SBytes (digest_portion v)
   | SList [SNum 33; SBytes v] => s_opt SBytes (digest_component v)
+  (* what the decoders report as covered (Model/PacketPtrs.v over the reflected layouts) *)
+  | SList [SNum 34; SBytes v] => s_res s_ptrs (ptrs_interest_with Generated.Schemas.ndn_format_0_3_InterestPacketValue_layout v)
+  | SList [SNum 35; SBytes v] => s_res s_ptrs (ptrs_data_with Generated.Schemas.ndn_format_0_3_DataPacketValue_layout v)
+  | SList [SNum 36; SBytes v] => s_res s_ptrs (ptrs_data_with Generated.Schemas.security_v2_CertificateV2Value_layout v)
   | _ => s_bad_request
   end.
 
